@@ -103,22 +103,49 @@ func lockCalls(fn *ssa.Function, kind, lockSuffix string) []ssa.Instruction {
 // orderChain checks that in fn the first instruction matching each successive predicate precedes
 // (dominates) the next one.
 func (c *Ctx) orderChain(rule string, fn *ssa.Function, names []string, preds []func(ssa.Instruction) bool, why string) {
-	var prev ssa.Instruction
+	// A step may sit in fn itself or in a same-package helper fn calls (a teardown block extracted into a
+	// method): it is then represented in fn by the call site of the helper, and two consecutive steps
+	// inside the same helper are ordered there.
+	var prev, prevInner ssa.Instruction
 	for i, p := range preds {
-		var cur ssa.Instruction
+		var cur, inner ssa.Instruction
 		EachInstr(fn, func(in ssa.Instruction) {
 			if cur == nil && p(in) {
-				cur = in
+				cur, inner = in, in
 			}
 		})
+		if cur == nil {
+			EachInstr(fn, func(in ssa.Instruction) {
+				if cur != nil {
+					return
+				}
+				ci := asCall(in)
+				if ci == nil {
+					return
+				}
+				cal := c.W.Callee(ci)
+				if cal == nil || cal.Pkg != fn.Pkg || !c.W.inModule(cal) {
+					return
+				}
+				EachInstr(cal, func(x ssa.Instruction) {
+					if cur == nil && p(x) {
+						cur, inner = in, x
+					}
+				})
+			})
+		}
 		if !c.Anchor(rule, names[i]+" in "+FuncName(fn), cur != nil) {
 			return
 		}
 		if prev != nil {
 			// order on every path that contains both (steps may be conditional or loop bodies)
-			c.Check(rule, cur, names[i-1]+" ≺ "+names[i], Reaches(prev, cur) && !Reaches(cur, prev), why)
+			ok := Reaches(prev, cur) && !Reaches(cur, prev)
+			if prev == cur && prevInner != nil && inner != nil && prevInner.Parent() == inner.Parent() {
+				ok = Reaches(prevInner, inner) && !Reaches(inner, prevInner)
+			}
+			c.CheckAt(rule, FuncName(fn)+": "+names[i-1]+" ≺ "+names[i], c.W.InstrPos(cur), ok, why)
 		}
-		prev = cur
+		prev, prevInner = cur, inner
 	}
 }
 
@@ -511,7 +538,8 @@ func runC05(c *Ctx) {
 			flag   string
 		}
 		for _, cu := range []cleanup{{"Client.cleanupKeyed", "flagKeyed"}, {"Node.removePresence", "flagEmitPresence"}, {"Client.removeMapPresence", ""}, {"perChannelWriter.delWriter", ""}, {"Node.removeSubscription", ""}} {
-			calls := CallsIn(unsub, false, w.calleeIs(cu.callee))
+			// (in unsubscribe itself or in a helper it delegates a critical section to)
+			calls := w.Deep(unsub, 1).Calls(w.calleeIs(cu.callee))
 			if !c.Anchor("C05.R7", cu.callee+" call in unsubscribe", len(calls) > 0) {
 				continue
 			}
@@ -608,7 +636,7 @@ func runC06(c *Ctx) {
 	// R3
 	unsub := c.Fn("C06.R3", "centrifuge", "(*Client).unsubscribe")
 	if unsub != nil {
-		dels := mapDeletesOf(unsub, false, "Client", "channels")
+		dels := channelDeleteSites(w, unsub)
 		for _, p := range CallsIn(unsub, false, w.calleeIs("Node.removePresence", "Client.removeMapPresence")) {
 			ok := false
 			for _, d := range dels {
@@ -842,8 +870,43 @@ func runC07(c *Ctx) {
 // entry was deleted by this call: `!removedNow → return` false edge. removedNow is a φ of bool
 // constants; its true polarity is what we need.
 func isRemovedNowGuard(g Guard) bool {
+	if !g.Pol {
+		return false
+	}
+	// the flag may be the boolean result of a same-package helper that performs the delete
+	if ex, ok := g.Cond.(*ssa.Extract); ok {
+		if call, ok := ex.Tuple.(*ssa.Call); ok {
+			if h := call.Call.StaticCallee(); h != nil && len(h.Blocks) > 0 && call.Parent() != nil && h.Pkg == call.Parent().Pkg {
+				okAll, n := true, 0
+				EachInstr(h, func(in ssa.Instruction) {
+					r, isRet := in.(*ssa.Return)
+					if !isRet {
+						return
+					}
+					vals := retVals(r)
+					if ex.Index >= len(vals) {
+						okAll = false
+						return
+					}
+					n++
+					if k, known := boolConst(vals[ex.Index]); known {
+						if k {
+							okAll = false
+						}
+						return
+					}
+					hp, isPhi := vals[ex.Index].(*ssa.Phi)
+					if !isPhi || !isRemovedNowGuard(Guard{Cond: hp, Pol: true}) {
+						okAll = false
+					}
+				})
+				return okAll && n > 0
+			}
+		}
+		return false
+	}
 	phi, ok := g.Cond.(*ssa.Phi)
-	if !ok || !g.Pol {
+	if !ok {
 		return false
 	}
 	if bt, ok := phi.Type().Underlying().(*types.Basic); !ok || bt.Kind() != types.Bool {
@@ -1021,4 +1084,30 @@ func runC08(c *Ctx) {
 		}
 	}
 	_ = fmt.Sprint
+}
+
+// channelDeleteSites: the instructions of fn that remove an entry from Client.channels — the delete
+// itself, or the call of a same-package helper (an extracted critical section) that contains it.
+func channelDeleteSites(w *World, fn *ssa.Function) []ssa.Instruction {
+	var out []ssa.Instruction
+	for _, d := range mapDeletesOf(fn, false, "Client", "channels") {
+		out = append(out, d)
+	}
+	EachInstr(fn, func(in ssa.Instruction) {
+		ci := asCall(in)
+		if ci == nil {
+			return
+		}
+		if _, isDefer := in.(*ssa.Defer); isDefer {
+			return
+		}
+		cal := w.Callee(ci)
+		if cal == nil || cal.Pkg != fn.Pkg || !w.inModule(cal) || cal == fn {
+			return
+		}
+		if len(mapDeletesOf(cal, false, "Client", "channels")) > 0 {
+			out = append(out, in)
+		}
+	})
+	return out
 }
